@@ -7,22 +7,40 @@ from vlib import core
 TRUST = ("Lean 4.33 kernel; axioms at most propext/Classical.choice/Quot.sound (audited per run); "
          "hand-written model Model/Loss.lean tied to the C++ by the correspondence harness (differential, generator-bounded); ")
 MANIFEST = dict(
-  text=("Theorems (Props/C06.lean): for every loss in the model the batch value is the sum of the per-element values and the "
-        "derivative call returns the same value as eval (exact arithmetic, all batch sizes and dimensions); gradients are the true "
-        "derivatives of the per-element value w.r.t. the prediction over the reals (HasDerivAt, away from the stated kink points); "
-        "ErrorFunction: for every batch partition, every thread count 1..numBatches (thread ranges generated from the C++) and every "
-        "order in which threads merge their partial sums the result is the mean per-element loss; equal weights give the unweighted "
-        "result; the regularizer adds exactly strength*term. Correspondence: every loss (eval and evalDerivative) on dyadic data, "
-        "exact comparison for the piecewise-polynomial losses (FE_INEXACT must stay clear), bit-for-bit comparison with the Float "
-        "instance for CrossEntropy/Huber, plus an in-harness oracle (batch = sum of single-element calls, derivative value = eval)."),
-  note=TRUST + "floating-point rounding is not modelled (theorems are about exact arithmetic; the step to doubles is the correspondence); "
-       "NegativeAUC, DiscreteLoss and the sequence specialisation of SquaredLoss are not modelled; the ErrorFunction gradient clause "
-       "relies on the model-derivative contract of C04.",
-  technique="Lean 4 proofs (algebraic identities over Rat, HasDerivAt over Real) + exact/bit-exact differential correspondence with the C++ losses",
+  text=("Theorems (Props/C06.lean + Lemmas/LossCurve1/2, LossSecond, ErrFn, ErrFn2): for every loss class of Shark the batch value is "
+        "the sum of the per-element values and the derivative call returns the value of eval; every differentiable loss (squared "
+        "with vector and class labels, hinge and squared hinge in the one-column and the multi-class branch, epsilon-hinge, squared "
+        "epsilon-hinge, Huber, cross-entropy with one column, several columns and probability-vector labels) satisfies the "
+        "total-derivative contract BatchGradAt over the reals (derivative along every differentiable curve of predictions; kink "
+        "points stated as hypotheses, none for the C1 losses), the Hessian entries of cross-entropy are the derivatives of its "
+        "gradient, one-/two-norm regularizers (masked) return their gradients. End to end "
+        "(errorFunction_evalDerivative_end_to_end): for every ConcatenatedModel of C04 (its derivative theorem is imported, not "
+        "assumed), every data set, every batch partition, every thread count >= 1 with the thread ranges regenerated from the C++ "
+        "and every order in which the threads merge, the modelled ErrorFunction::evalDerivative returns the mean loss and the "
+        "derivative of the mean loss w.r.t. the weight (offset: chain_offset_contract) it is asked for; two partitions of the same "
+        "data give the same error (errorFunction_partition_independent); weighted variant = weighted mean and its gradient, equal "
+        "weights = unweighted; mini-batch branch = mean over the drawn batch, its expectation = data-set mean for equal batch "
+        "sizes; regularizer / CombinedObjectiveFunction add exactly strength*term to value and gradient; NegativeLogLikelihood "
+        "value independent of threads. Correspondence K-C06 on every run: all eleven loss classes incl. all overloads (exact "
+        "comparison on dyadic data, bit-for-bit with the Float instance for exp/log/sqrt losses), the real ErrorFunction "
+        "(eval and evalDerivative; LinearModel and two-layer ConcatenatedModel; unweighted, weighted, mini-batch, with One/TwoNorm "
+        "regularizer and masks, inside a CombinedObjectiveFunction) over random partitions and thread counts 1..B+1, "
+        "AbstractLoss::eval(Data,Data), NegativeAUC, NegativeLogLikelihood, with in-harness oracles that recompute value and "
+        "gradient element by element and every loss value from its textbook definition."),
+  note=TRUST + "floating-point rounding is not modelled (theorems are about exact arithmetic; the step to doubles is the correspondence: "
+       "data that is merged across threads is exact, exp/log/sqrt losses are compared bit for bit on one thread); hand-written "
+       "models Model/Loss2.lean, Model/ErrFn.lean; the derivative theorems are per parameter (weight / offset of an optimised dense "
+       "layer of a C04 chain) away from the kinks of model (C04 NoKink) and loss (stated per loss; CrossEntropy's < -200 shortcut "
+       "excluded); NegativeAUC = pair count and the loss values' textbook definitions are oracles, not theorems; "
+       "CrossValidationError is not reached (needs a trainer); the second-derivative overload of CrossEntropy and "
+       "NegativeWilcoxonMannWhitneyStatistic are tied to the code only once findings F-C06-2/3 are fixed (until then the check "
+       "reports them as KNOWN-FINDING); open findings F-C06-1..4 in known_findings.json.",
+  technique="Lean 4 proofs (algebraic identities over Rat, HasDerivAt over Real composed through the C04 chain theorems, thread-range tiling regenerated from the source) + exact/bit-exact differential correspondence with the C++ losses and the real ErrorFunction",
   design="§6 C06")
 FINISH = dict(level="proof",
-              rule="cases = (loss, eval|deriv, batch of dyadic labels/predictions); exact-closed losses in rat mode, exp/log/sqrt losses in "
-                   "float mode; distinct = distinct op text; non-trivial = batch with >= 2 rows and at least one active and one inactive hinge/branch")
+              rule="cases = (loss, eval|deriv, batch of dyadic labels/predictions) for every loss class; (flavour, loss, model, partition, threads, "
+                   "data) for the real ErrorFunction; cost/auc/nll/discrete/sequence ops; exact-closed losses in rat mode, exp/log/sqrt "
+                   "losses and everything divided by n in float mode; distinct = distinct op text; non-trivial = more than one row / batch")
 LAKE_TARGETS = ["SharkVerif.Props.C06", "drv_c06"]
 # Props/C06.lean states the property; the composition lemmas it imports are obligations of their own
 PROOF_MODULES = ["SharkVerif.Props.C06", "SharkVerif.Lemmas.ErrFn", "SharkVerif.Lemmas.ErrFn2", "SharkVerif.Lemmas.LossCurve1",
@@ -277,8 +295,8 @@ def classify(ops, res):
 
 
 def run(ctx):
-    ctx.trusted += ["correspondence harness harness/c06.cpp + generator checks/c06.py",
-                    "hand-written model Model/Loss.lean (the loss headers are modelled, not translated); thread ranges are translated (Gen/ParRegions.lean)",
+    ctx.trusted += ["correspondence harness harness/c06.cpp, harness/c06b.cpp + generator checks/c06.py",
+                    "hand-written models Model/Loss.lean, Model/Loss2.lean, Model/ErrFn.lean (the headers are modelled, not translated); thread ranges are translated (Gen/ParRegions.lean)",
                     "Float instance = IEEE binary64 with the platform libm (same exp/log/sqrt as the C++)"]
     ctx.assumptions += ["exact arithmetic in the theorems; rounding enters only through the correspondence",
                         "labels of classification losses are < number of outputs (the C++ RANGE_CHECKs)"]
@@ -333,7 +351,8 @@ def run(ctx):
     for c in cases:
         ctx.hist("op_kinds", " ".join(c[1].split()[:2]) if c[1].split()[0] in ("eval", "deriv") else c[1].split()[0])
     ctx.cov["evaluations"] = len(cases)
-    ctx.cov["distinct_nontrivial"] = len({c[1] for c in cases if " | " in c[1] and len(c[1].split("|")) >= 4 and not c[1].split("|")[2].strip().startswith("1 ")})
+    ctx.cov["distinct_nontrivial"] = len({c[1] for c in cases if " | " in c[1] and len(c[1].split("|")) >= 4 and not c[1].split("|")[2].strip().startswith("1 ")
+                                          and not (c[1].startswith("ef ") and c[1].split("|")[5].split() in ([], ["1"]))})
     ctx.sample({"ops": cases[0]}); ctx.sample({"ops": cases[-1]}); ctx.sample({"ops": cases[len(corpus) + len(EXACT) * per + 3]})
     for fl in ("none", "w", "mini", "reg"):
         ctx.sample({"ops": next(c for c in cases if c[1].startswith("ef ") and c[1].split("|")[-1].split()[0] == fl)}, limit=10)
